@@ -6,6 +6,7 @@ from ..engine.fold import fold
 from ..engine.cfg import is_raw_syscall
 from .c12 import mentions
 from . import threads as T
+from .futexflavour import nr_name
 
 CONFIGS_QUICK = ["A"]
 CONFIGS_THOROUGH = ["A", "R", "X"]
@@ -99,7 +100,7 @@ def run_one(ck, prog):
         tid = []
         for bb, t in c.cfg.calls(lambda t: is_raw_syscall(t.get("callee"))):
             a = c.args(bb)
-            if a and fold(a[0]) == (prog.const("sc::platform::nr::SET_TID_ADDRESS") or 218):
+            if a and nr_name(a[0]) == "SET_TID_ADDRESS":
                 tid.append((bb, fold(a[1]) if len(a) > 1 else None))
         ds = T.call_blocks(c, dealloc)
         ok = bool(ds) and all(any(c.cfg.dominates(tb, d) and tb != d and v == 0 for tb, v in tid) for d in ds)
